@@ -47,16 +47,18 @@ def run(rep: common.Report, tier: str, seed: int, replay=None) -> int:
     for ci in range(ncase):
         n, m = rng.randint(4, 60), rng.randint(2, 25)
         lu, cu = rng.choice(["um", "nm", "mm"]), rng.choice(["uA", "mA", "nA"])
-        pos = np.array([[rng.uniform(-3, 3), rng.uniform(-3, 3)] for _ in range(n)])
+        # any length scale in the stated units (sources and evaluation points scale together)
+        Ls = [1.0, 1.0, 1e-6, 1e3, 1.0, 3e-4, 1.0, 50.0][ci % 8]
+        pos = np.array([[rng.uniform(-3, 3), rng.uniform(-3, 3)] for _ in range(n)]) * Ls
         J = np.array([[rng.gauss(0, 1), rng.gauss(0, 1)] for _ in range(n)])
         J2 = np.array([[rng.gauss(0, 1), rng.gauss(0, 1)] for _ in range(n)])
-        areas = np.array([rng.uniform(0.01, 0.5) for _ in range(n)])
-        z0 = rng.choice([0.0, 0.3])
-        ev = np.array([[rng.uniform(-4, 4), rng.uniform(-4, 4), z0 + rng.choice([-1, 1]) * rng.uniform(0.2, 2.0)] for _ in range(m)])
+        areas = np.array([rng.uniform(0.01, 0.5) for _ in range(n)]) * Ls * Ls
+        z0 = rng.choice([0.0, 0.3]) * Ls
+        ev = np.array([[rng.uniform(-4, 4) * Ls, rng.uniform(-4, 4) * Ls, z0 + rng.choice([-1, 1]) * rng.uniform(0.2, 2.0) * Ls] for _ in range(m)])
         kw = dict(positions=pos, z0=z0, areas=areas, length_units=lu, current_units=cu)
         Bv = biot_savart_2d(ev[:, 0], ev[:, 1], ev[:, 2], current_densities=J, vector=True, **kw).to("tesla").magnitude
         Bz = biot_savart_2d(ev[:, 0], ev[:, 1], ev[:, 2], current_densities=J, vector=False, **kw).to("tesla").magnitude
-        case = {"case": ci, "sources": n, "points": m, "length_units": lu, "current_units": cu}
+        case = {"case": ci, "sources": n, "points": m, "length_units": lu, "current_units": cu, "length_scale": Ls}
         to_m = ureg(lu).to("m").magnitude
         to_apm = ureg(f"{cu} / {lu}").to("A / m").magnitude
         pos3 = np.concatenate([pos * to_m, np.full((n, 1), z0 * to_m)], axis=1)
@@ -79,8 +81,8 @@ def run(rep: common.Report, tier: str, seed: int, replay=None) -> int:
         t += f"Eval vm_compute in map (fun '(x, y, z) => match bs_vector OpsF c0 srcs x y z with (bx, by_, bz) => [bx; by_; bz] end) {evl}.\n"
         t += f"Eval vm_compute in map (fun '(x, y, z) => bs_z OpsF c0 srcs x y z) {evl}.\n"
         # distances
-        XA = np.array([[rng.gauss(0, 1) for _ in range(2)] for _ in range(5)])
-        XB = np.array([[rng.gauss(0, 1) for _ in range(2)] for _ in range(4)])
+        XA = np.array([[rng.gauss(0, 1) for _ in range(2)] for _ in range(5)]) * Ls
+        XB = np.array([[rng.gauss(0, 1) for _ in range(2)] for _ in range(4)]) * Ls
         la = coq_list([f"({flit(a[0])}, {flit(a[1])})" for a in XA])
         lb = coq_list([f"({flit(a[0])}, {flit(a[1])})" for a in XB])
         t += f"Eval vm_compute in cdist OpsF (dist2 OpsF) {la} {lb}.\nEval vm_compute in cdist OpsF (sqdist2 OpsF) {la} {lb}.\n"
@@ -110,7 +112,7 @@ def run(rep: common.Report, tier: str, seed: int, replay=None) -> int:
         if np.max(np.abs(mv - Bv)) > 1e-9 * sc or np.max(np.abs(mz - Bz)) > 1e-9 * sc:
             ndis += 1
             rep.not_shown("correspondence: biot_savart_2d differs from Model.Kernels.bs_vector / bs_z", case)
-        if np.max(np.abs(md - de)) > 1e-12 or np.max(np.abs(ms - ds)) > 1e-12:
+        if np.max(np.abs(md - de)) > 1e-12 * (float(np.max(de)) + 1e-300) or np.max(np.abs(ms - ds)) > 1e-12 * (float(np.max(ds)) + 1e-300):
             ndis += 1
             rep.not_shown("correspondence: distance.cdist differs from Model.Kernels.cdist", case)
     # ---------- solutions: total = applied + supercurrent + normal ; scalar/vector ----------
